@@ -243,7 +243,8 @@ def e2e(ctx):
                 os.makedirs(d, exist_ok=True)
                 cnt = os.path.join(d, 'count')
                 with open(os.path.join(d, 'gpg'), 'w') as f:
-                    f.write('#!/bin/bash\nif [ ! -e %s ]; then : > %s; /usr/bin/gpg "$@" | head -c 9000; exit 2; fi\nexec /usr/bin/gpg "$@"\n' % (cnt, cnt))
+                    # (it takes all its input, so only its exit status tells that something went wrong)
+                    f.write('#!/bin/bash\nif [ ! -e %s ]; then : > %s; /usr/bin/gpg "$@" > %s.out; head -c 700 %s.out; exit 2; fi\nexec /usr/bin/gpg "$@"\n' % (cnt, cnt, cnt, cnt))
                 os.chmod(os.path.join(d, 'gpg'), 0o755)
                 env = {'PATH': d + ':' + os.environ.get('PATH', '/usr/bin:/bin')}
             if special == 'readfault':
@@ -255,13 +256,15 @@ def e2e(ctx):
             stats['uploads'] += 1
             if special in ('readfault', 'gpgfails'):
                 stats['archiver_fault_runs' if special == 'readfault' else 'gpg_failure_runs'] = stats.get('archiver_fault_runs' if special == 'readfault' else 'gpg_failure_runs', 0) + 1
-                if not o['run'].errors():
-                    ctx.violation('runtime', 'the injected fault (%s) did not fire' % special, {'case': case}, found_input=False)
+                fired = bool(o['run'].errors()) if special == 'readfault' else os.path.exists(os.path.join(e.w.base, 'fakebin', 'count'))
+                nbad = len(ctx.violations)
                 for g, b in e.backups:
                     rel = '%s/%s.tar.gpg' % (g, b)
                     if rel in o['cloud']:
                         for p in decode_object(e.home, e.cloud_blob(rel), pp, b, os.path.join(e.w.root, g, b)):
                             ctx.violation('property', p + ' [%s, after %s]' % (prov, 'a read error in the archiver' if special == 'readfault' else 'a failure of gpg'), {'case': case, 'errors': o['run'].errors()[:3]})
+                if not fired and len(ctx.violations) == nbad:
+                    ctx.violation('runtime', 'the injected fault (%s) did not fire' % special, {'case': case}, found_input=False)
                 continue
             if o['run'].rc != 0 or o['run'].errors():
                 ctx.violation('property', 'vsb upload failed without any fault [%s]: %s' % (prov, o['run'].errors()[:3]), {'case': case})
